@@ -24,7 +24,7 @@ def extra(led, tier, seed):
     # component) is rejected, every consistent one accepted (ghost typing for all inputs + exhaustive small id universes)
     led.extend(mlcl_valid.ghost_typing())
     led.extend(mlcl_valid.exhaustive(tier))
-    led.extend(o for o in tree_print.rejection_table() if "unfitted" in o.name or "refused" in o.name)
+    led.extend(o for o in tree_print.rejection_table() if "unfitted" in o.name or "refused" in o.name or "names" in o.name)
     led.assume("A4", "A5: sklearn Interval / StrOptions / _validate_params implement the declared constraints; check_array / validate_data reject non-finite, non-numeric, "
                "non-2-D, empty and too-small data (relied upon for the malformed-data rows, labelled B)",
                "the documented domains are the table contracts/domains.py (transcribed from the docstrings and reconciled with C05/C06/C11 as listed there)",
